@@ -80,11 +80,18 @@ def check(ctx):
     tainted_locals = {}      # func qual -> set of names
     changed = True
     rounds = 0
+    _TAINT["returns"], _TAINT["R"] = set(), R
     while changed and rounds < 10:
         changed = False
         rounds += 1
         for fi in tr:
             loc = tainted_locals.setdefault(fi.qual, set())
+            if fi.qual not in _TAINT["returns"]:
+                for s in walk_no_nested(fi.node):
+                    if isinstance(s, ast.Return) and s.value is not None and _tainted_expr(fi, s.value, loc, tainted_fields):
+                        _TAINT["returns"].add(fi.qual)
+                        changed = True
+                        break
             for s in walk_no_nested(fi.node):
                 tgt = val = None
                 if isinstance(s, ast.Assign) and len(s.targets) == 1:
@@ -336,6 +343,9 @@ def check(ctx):
                    "put()/set() can land between the consumer's emptiness check and its clear(), the event is cleared with a "
                    "message queued, and the application blocks although its message has arrived", key="wait_guard")
     ctx.count("untimed_delivery_waits", len(waits))
+    # ... and no clear() of the event sits between the last check of the loop condition and the wait (shared with C08)
+    from .c08 import wake_recheck
+    wake_recheck(ctx, repo, R, fk, funcs, flows)
 
     # ---- 6 FIFO hops ------------------------------------------------------------------------------------------------------------
     ctx.clause = "6-fifo-hops"
@@ -354,10 +364,21 @@ def check(ctx):
                    f"{q} is fed by {putters} (a second producer or a re-enqueue breaks the order)", key=f"who:{q}")
 
 
+_TAINT = {"returns": set(), "R": None}
+
+
 def _tainted_expr(fi, e, loc, fields):
     for n in ast.walk(e):
         if isinstance(n, ast.Call) and call_name(n).endswith(("sock.recv", "sock.sctp_recv")):
             return True
+        if isinstance(n, ast.Call) and _TAINT["returns"] and _TAINT["R"] is not None:
+            # a call of a function that hands received bytes back (a wrapper around recv)
+            try:
+                cals = _TAINT["R"].resolve_call(fi, n, _TAINT["R"].local_types(fi))[0]
+            except Exception:
+                cals = []
+            if any(c_.qual in _TAINT["returns"] for c_ in cals):
+                return True
         if isinstance(n, ast.Name) and n.id in loc:
             return True
         if isinstance(n, ast.Attribute):
